@@ -209,7 +209,24 @@ func cycleRun(which cyc.Which, g Gen) core.RunFunc {
 	}
 }
 
+func reg(id string, w cyc.Which, g Gen, rule string) {
+	core.Register(&core.Spec{
+		ID: id, Engine: "cycle",
+		Run:       cycleRun(w, g),
+		QuickRuns: 40000, ThorRuns: 1500000, QuickCap: 60 * time.Second, ThorCap: 12 * time.Minute,
+		Rule: rule,
+		Real: realCycle, Stub: stubCycle,
+		Assume: []string{"sidecar reports are restricted to what a sidecar can produce (idle-since iff empty, process = sum of totals, head >= sum of series) plus a small optional skew", "map ranges inside third-party packages keep Go's random order (shown harmless by the determinism self-check)"},
+	})
+}
+
+const cycleRule = "one real coordination cycle per run over a generated scenario (options, 1-5 shards with readiness/request outcomes/config-hash relation/load reports, 1-8 targets with copy patterns incl. duplicates, pending and stuck transfers, explorer results) under a drawn completion order of the parallel requests, drawn map-iteration permutation and math/rand seed; "
+
 func init() {
+	reg("C04", cyc.Which{C04: true}, Gen{Replicas: 1, ReqFaults: true}, cycleRule+"a case is one (target copy pattern, scrape classes, active?) x (decision: placed/removed/restate); trivial = nothing placed, moved or removed")
+	reg("C05", cyc.Which{C05: true}, Gen{Replicas: 1, ReqFaults: true}, cycleRule+"a case is one (target copy pattern incl. scrape classes of source and destination) x decision; trivial = no copy in transfer and no move")
+	reg("C07", cyc.Which{C07: true}, Gen{Replicas: 1, ReqFaults: true}, cycleRule+"a case is one (target copy pattern) x decision, plus every scale request is checked; trivial = untouched target")
+	reg("C08", cyc.Which{C08: true}, Gen{Replicas: 1, ReqFaults: true}, cycleRule+"a case is one (target copy pattern over in-sync / out-of-sync shards) x decision; trivial = untouched target")
 	core.Register(&core.Spec{
 		ID: "C01", Engine: "cycle",
 		Run:       cycleRun(cyc.Which{C01: true}, Gen{Replicas: 1, ReqFaults: true}),
